@@ -163,11 +163,11 @@ type Body func(c *Ctx)
 
 // Options configure one exploration.
 type Options struct {
-	Bound      int    // deviation bound (ignored when all costs are 0)
-	Shard      int    // this worker's index
-	NShards    int    // number of workers
-	SplitDepth int    // DFS nesting level at which subtrees are dealt to shards (default 2)
-	MaxExecs   int64  // safety cap; reaching it clears Exhaustive
+	Bound      int   // deviation bound (ignored when all costs are 0)
+	Shard      int   // this worker's index
+	NShards    int   // number of workers
+	SplitDepth int   // DFS nesting level at which subtrees are dealt to shards (default 2)
+	MaxExecs   int64 // safety cap; reaching it clears Exhaustive
 	Deadline   func() bool
 	Journal    string // file receiving the choice prefix of the execution in progress
 	OnExec     func(x *Exec, counted bool)
